@@ -181,6 +181,8 @@ class DepacketizerModel(QueueModel):
         if last:
             if not outs:
                 if not pend or len(hb) < self.hdr.length:
+                    if getattr(self, "allow_empty", False):
+                        return ((), ()), []          # packet without a payload byte: nothing to deliver (C04-only configurations)
                     raise MachineryError("environment produced a packet without payload")
                 # the packet ends inside the realignment residue: its only payload beat holds the bytes behind the header tail
                 r, m = mk_beat(pend, self.bpc)
@@ -267,6 +269,18 @@ def add_framing(hname, L, dw, swap, tier):
     reg(nm, tier, lambda nm=nm: StreamHarness(nm, lambda: packet.Depacketizer(rd(), pd(), ref.litex()),
                                               lambda H: DepacketizerModel(ref, bpc), M=4, idbits=idb, nparam=1,
                                               minpkt=hb + 1 + (0 if aligned else 0), maxpkt=hb + 3))
+    if aligned and words >= 1:
+        # C04 only: packets that END with the last header word (no payload byte at all).  Such a packet is malformed input for the framing
+        # property (C16 does not judge it; the element drops it), but it is a perfectly legal stream packet, so the handshake contract and
+        # progress still have to hold around it
+        nm = "Depacketizer" + base + "+header_only_packet"
+        def mk_ho(nm=nm):
+            def model(H):
+                m = DepacketizerModel(ref, bpc)
+                m.allow_empty = True
+                return m
+            return StreamHarness(nm, lambda: packet.Depacketizer(rd(), pd(), ref.litex()), model, M=4, idbits=idb, nparam=1, minpkt=hb, maxpkt=hb + 2)
+        REGISTRY[nm] = ("c04only" if tier == "quick" else "c04only-thorough", mk_ho)
     if not aligned and words >= 1:
         # payload shorter than what is left of the header-completing beat: `last` comes with the header tail
         nm = "Depacketizer" + base + "+residue_packet"
@@ -406,8 +420,9 @@ for n, one_hot in ((1, False), (2, False), (2, True), (3, False), (3, True), (4,
     reg(nm, "quick" if n < 3 or not one_hot else "thorough", mk_disp)
 
 
-def configs(tier):
-    return [(n,) for n, (t, f) in REGISTRY.items() if t == "quick" or tier == "thorough"]
+def configs(tier, c04=False):
+    ok = lambda t: t == "quick" or (tier == "thorough" and not t.startswith("c04only")) or (c04 and (t == "c04only" or tier == "thorough"))
+    return [(n,) for n, (t, f) in REGISTRY.items() if ok(t)]
 
 
 C16_RULES = ("data.", "dup.", "order.", "fifo.", "atomic.", "route.")
